@@ -1,10 +1,13 @@
 #!/bin/sh
 # quick tier of every check for several seeds; one line per run
+bad=0
 for seed in ${SEEDS:-1 2 3 4 5}; do
   for c in C01 C02 C03 C04 C05 C06 C07 C08 C09 C10 C11 C12 C13 C14 C15 C16 C17 C18 C19 C20; do
     VERIF_SEED=$seed /venv/bin/python -m vcheck $c --tier quick > sweep_${c}_$seed.log 2>&1
     rc=$?
     echo "seed=$seed $c rc=$rc viol=$(grep -c '^VIOLATION' sweep_${c}_$seed.log) incon=$(grep -c '^INCONCLUSIVE' sweep_${c}_$seed.log) $(grep -E '^C[0-9]+ tier' sweep_${c}_$seed.log | cut -c1-90)"
-    [ $rc -ne 0 ] && grep -A3 -E '^VIOLATION|^INCONCLUSIVE' sweep_${c}_$seed.log | head -12 | cut -c1-500
+    [ $rc -ne 0 ] && bad=$((bad+1)) && grep -A3 -E '^VIOLATION|^INCONCLUSIVE' sweep_${c}_$seed.log | head -12 | cut -c1-500
   done
 done
+echo "runs with a non-zero exit: $bad"
+[ $bad -eq 0 ]
